@@ -157,8 +157,8 @@ def run(tier):
     for s in sites.values():
         kinds[s[0]] = kinds.get(s[0], 0) + 1
     rep.extra["site_inventory"] = kinds
-    rep.floor("assert sites", kinds.get("assert", 0), 12)
-    rep.floor("may-panic call sites", kinds.get("may-panic", 0), 12)
+    rep.floor("assert sites", kinds.get("assert", 0), 4)
+    rep.floor("may-panic call sites", kinds.get("may-panic", 0), 6)
     # ---- structural: unsafe / abort / recursion
     for k in reach:
         b = prog.bodies[k]
@@ -166,7 +166,7 @@ def run(tier):
             rep.ob("no-unsafe", k, False, "unsafe fn reachable from the public API", b.where())
     hits, _, _ = C16.body_rules(prog, rep, reach.keys())
     for k, what, where in hits:
-        if what.startswith(("process control", "call of unsafe fn", "raw pointer", "transmute", "FFI")):
+        if what.startswith(("process control", "call of unsafe fn", "unsafe block", "unsafe fn", "transmute", "FFI")):
             rep.ob("no-abort-no-unsafe", "%s: %s" % (k, what), False, "", where, key="no-abort-no-unsafe|%s|%s" % (k, what))
     rec = sccs(prog, set(reach.keys()))
     rep.ob("no-recursion", "call graph of %d bodies" % len(reach), not rec, "recursive component(s): %s" % rec[:3])
